@@ -159,7 +159,50 @@ func runCap(addr string, g *gateUpstream, k int, events []string) string {
 	if r, err := udpExchange(addr, kindQuery(7, "ok"), time.Second); err != nil || len(r) < 12 {
 		probe = "dead"
 	}
-	return fmt.Sprintf("max=%d replied=%d/%d probe=%s", max, replied, n, probe)
+	// second rendezvous, mixed transports: K+2 slow queries alternating UDP / TCP (one connection
+	// each), so that neither transport alone exceeds K but together they do: the capacity is ONE
+	// pool shared by every listener
+	atomic.StoreInt32(&g.maxActive, 0)
+	var replied2 int32
+	for j := 0; j < n; j++ {
+		wg.Add(1)
+		go func(j int) {
+			defer wg.Done()
+			q := kindQuery(2000+j, "slow")
+			if j%2 == 0 {
+				if r, err := udpExchange(addr, q, 6*time.Second); err == nil && len(r) >= 12 {
+					atomic.AddInt32(&replied2, 1)
+				}
+				return
+			}
+			t := &tcpClient{}
+			if r, err := t.exchange(addr, q, 6*time.Second); err == nil && len(r) >= 24 {
+				atomic.AddInt32(&replied2, 1)
+			}
+			if t.c != nil {
+				t.c.Close()
+			}
+		}(j)
+		time.Sleep(5 * time.Millisecond)
+	}
+	deadline = time.Now().Add(2 * time.Second)
+	for time.Now().Before(deadline) && int(atomic.LoadInt32(&g.active)) < k {
+		time.Sleep(10 * time.Millisecond)
+	}
+	time.Sleep(200 * time.Millisecond)
+	max2 := atomic.LoadInt32(&g.maxActive)
+	g.mu.Lock()
+	close(g.gate)
+	g.mu.Unlock()
+	wg.Wait()
+	g.mu.Lock()
+	g.gate = make(chan struct{})
+	g.mu.Unlock()
+	mix := "ok"
+	if int(max2) > k {
+		mix = fmt.Sprintf("over:%d", max2)
+	}
+	return fmt.Sprintf("max=%d replied=%d/%d probe=%s mix=%s mixreplied=%d/%d", max, replied, n, probe, mix, replied2, n)
 }
 
 func init() {
